@@ -17,13 +17,13 @@ type Hash = u.Hash
 // recovers panics, snapshots caller-owned slices (C17), remembers previously returned results
 // and collects violations for the property being checked.
 type Exec struct {
-	Prop  string // property whose oracle clauses are reported
+	Prop   string      // property whose oracle clauses are reported
 	CaseFn func() Case // builds the case being executed (attached to violations, lazily)
 	cs     *Case
-	Viol  []Violation
-	Notes []string
-	held  []heldSlice
-	calls int
+	Viol   []Violation
+	Notes  []string
+	held   []heldSlice
+	calls  int
 }
 
 type heldSlice struct {
@@ -71,14 +71,14 @@ func isPanic(err error) bool { return err != nil && strings.HasPrefix(err.Error(
 // ---- C17 support ----
 
 type argSnap struct {
-	x     *Exec
-	call  string
-	names []string
-	hs    [][]Hash
-	hcs   [][]Hash
-	ts    [][]uint64
-	tcs   [][]uint64
-	tn    []string
+	x        *Exec
+	call     string
+	names    []string
+	hs       [][]Hash
+	hcs      [][]Hash
+	ts       [][]uint64
+	tcs      [][]uint64
+	tn       []string
 	leafRefs [][]u.Leaf
 }
 
@@ -212,7 +212,7 @@ func shortHs(hs []Hash) string {
 
 func (x *Exec) Modify(name string, acc u.Utreexo, leaves []u.Leaf, dh []Hash, proof u.Proof) error {
 	x.calls++
-	s := x.snap(name + ".Modify").L("adds", leaves).H("delHashes", dh).P("proof", proof)
+	s := x.snap(name+".Modify").L("adds", leaves).H("delHashes", dh).P("proof", proof)
 	err := safe(func() error { return acc.Modify(leaves, dh, proof) })
 	s.check()
 	return err
@@ -220,7 +220,7 @@ func (x *Exec) Modify(name string, acc u.Utreexo, leaves []u.Leaf, dh []Hash, pr
 
 func (x *Exec) Undo(name string, acc u.Utreexo, numAdds uint64, proof u.Proof, dh, prevRoots []Hash) error {
 	x.calls++
-	s := x.snap(name + ".Undo").H("delHashes", dh).P("proof", proof).H("prevRoots", prevRoots)
+	s := x.snap(name+".Undo").H("delHashes", dh).P("proof", proof).H("prevRoots", prevRoots)
 	err := safe(func() error { return acc.Undo(numAdds, proof, dh, prevRoots) })
 	s.check()
 	return err
@@ -228,7 +228,7 @@ func (x *Exec) Undo(name string, acc u.Utreexo, numAdds uint64, proof u.Proof, d
 
 func (x *Exec) Prove(name string, acc u.Utreexo, hs []Hash) (u.Proof, error) {
 	x.calls++
-	s := x.snap(name + ".Prove").H("hashes", hs)
+	s := x.snap(name+".Prove").H("hashes", hs)
 	var p u.Proof
 	err := safe(func() error {
 		var e error
@@ -241,7 +241,7 @@ func (x *Exec) Prove(name string, acc u.Utreexo, hs []Hash) (u.Proof, error) {
 
 func (x *Exec) VerifyAcc(name string, acc u.Utreexo, hs []Hash, proof u.Proof, remember bool) error {
 	x.calls++
-	s := x.snap(name + ".Verify").H("delHashes", hs).P("proof", proof)
+	s := x.snap(name+".Verify").H("delHashes", hs).P("proof", proof)
 	err := safe(func() error { return acc.Verify(hs, proof, remember) })
 	s.check()
 	return err
@@ -275,7 +275,7 @@ func (x *Exec) StumpUpdate(st *u.Stump, dh, adds []Hash, proof u.Proof) (u.Updat
 
 func (x *Exec) Ingest(name string, m *u.MapPollard, hs []Hash, proof u.Proof) error {
 	x.calls++
-	s := x.snap(name + ".Ingest").H("delHashes", hs).P("proof", proof)
+	s := x.snap(name+".Ingest").H("delHashes", hs).P("proof", proof)
 	err := safe(func() error { return m.Ingest(hs, proof) })
 	s.check()
 	return err
@@ -283,7 +283,7 @@ func (x *Exec) Ingest(name string, m *u.MapPollard, hs []Hash, proof u.Proof) er
 
 func (x *Exec) Prune(name string, m *u.MapPollard, hs []Hash) error {
 	x.calls++
-	s := x.snap(name + ".Prune").H("hashes", hs)
+	s := x.snap(name+".Prune").H("hashes", hs)
 	err := safe(func() error { return m.Prune(hs) })
 	s.check()
 	return err
